@@ -126,7 +126,7 @@ def run(tier, report):
     core.import_repo()
     rng = core.rng(15)
     plans = {"quick": [("quick_a", None, 6000), ("quick_b", None, 6000), ("sheets", None, None), ("sim", 150, None)],
-             "thorough": [("quick_a", None, None), ("quick_b", None, None), ("sheets", None, None), ("deep", None, 80000),
+             "thorough": [("quick_a", None, None), ("quick_b", None, None), ("sheets", None, None), ("deep", None, 80000), ("deep_b", None, 80000),
                           ("sim", 5000, None)]}
     folder = core.workdir("c15")
     try:
